@@ -271,6 +271,144 @@ func paramDepsWhole(fn *ssa.Function, v ssa.Value) map[string]bool {
 	return out
 }
 
+// handsOverModuleCode: the call passes a function of the module, or an interface value whose dynamic type is a module type
+// with methods.
+func handsOverModuleCode(p *core.Prog, c ssa.CallInstruction) bool {
+	for _, a := range c.Common().Args {
+		switch x := a.(type) {
+		case *ssa.MakeClosure:
+			if f, ok := x.Fn.(*ssa.Function); ok && core.InModule(f) {
+				return true
+			}
+		case *ssa.Function:
+			if core.InModule(x) {
+				return true
+			}
+		case *ssa.MakeInterface:
+			t := x.X.Type()
+			if pt, ok := t.(*types.Pointer); ok {
+				t = pt.Elem()
+			}
+			if n, ok := t.(*types.Named); ok && n.Obj().Pkg() != nil && strings.HasPrefix(n.Obj().Pkg().Path(), core.ModulePath) {
+				if p.SSA.MethodSets.MethodSet(x.X.Type()).Len() > 0 {
+					return true
+				}
+			}
+		}
+	}
+	return false
+}
+
+// checkConfigFallback implements R10.10.
+func checkConfigFallback(p *core.Prog, r *core.Result, rule string) {
+	fileAccess := map[string]bool{"os.Open": true, "os.OpenFile": true, "os.ReadFile": true, "os.Stat": true, "os.Lstat": true, "os.ReadDir": true, "os.Readlink": true}
+	notExistArg := func(c ssa.CallInstruction) ssa.Value {
+		if core.IsCallTo(c, "os", "IsNotExist") && len(c.Common().Args) == 1 {
+			return c.Common().Args[0]
+		}
+		if core.IsCallTo(c, "errors", "Is") && len(c.Common().Args) == 2 {
+			if ld, ok := c.Common().Args[1].(*ssa.UnOp); ok {
+				if g, ok := ld.X.(*ssa.Global); ok && g.Name() == "ErrNotExist" {
+					return c.Common().Args[0]
+				}
+			}
+		}
+		return nil
+	}
+	n := 0
+	for _, fn := range p.ModuleFuncs() {
+		// functions that choose between the two configuration file names
+		names := 0
+		for _, f := range core.WithAnons(fn) {
+			core.Instrs(f, func(in ssa.Instruction) {
+				var ops []*ssa.Value
+				for _, op := range in.Operands(ops) {
+					if *op == nil {
+						continue
+					}
+					if s, ok := core.ConstString(*op); ok && (s == "dawn.toml" || s == ".dawnconfig") {
+						names++
+					}
+				}
+			})
+		}
+		if names == 0 || fn.Parent() != nil {
+			continue
+		}
+		k := 0
+		for _, f := range core.WithAnons(fn) {
+			for _, c := range core.Calls(f) {
+				a := notExistArg(c)
+				if a == nil {
+					continue
+				}
+				// where does the tested error come from?
+				var src *ssa.Call
+				core.DependsOn(a, core.SliceOpts{Stores: true}, func(x ssa.Value) bool {
+					switch y := x.(type) {
+					case *ssa.Extract:
+						if cc, ok := y.Tuple.(*ssa.Call); ok && src == nil {
+							src = cc
+						}
+					case *ssa.Call:
+						if src == nil && y != c.Value() {
+							src = y
+						}
+					}
+					return false
+				})
+				if src == nil {
+					continue
+				}
+				n++
+				k++
+				construct := fmt.Sprintf("%s#not-exist-test-%d", fname(fn), k)
+				g := core.Callee(src)
+				if g == nil || !core.InModule(g) {
+					what := "an interface or library call"
+					if g != nil {
+						what = core.CalleeKey(g)
+					}
+					okLib := g != nil && (fileAccess[core.CalleeKey(g)] || g.Pkg != nil && g.Pkg.Pkg.Path() == "os")
+					r.Check(okLib, rule, construct, p.InstrPos(c.(ssa.Instruction)), "the tested error is that of "+what+" on the one file", "the tested error comes from "+what+", which is not an access to the one file")
+					continue
+				}
+				// a module function: everything it can reach that touches the file system or a resolver
+				var sites []string
+				for h := range staticClosure(p, g) {
+					for _, hc := range core.Calls(h) {
+						cal := core.Callee(hc)
+						switch {
+						case cal != nil && fileAccess[core.CalleeKey(cal)]:
+							sites = append(sites, core.CalleeKey(cal)+" in "+fname(h))
+						case cal != nil && !core.InModule(cal) && cal.Pkg != nil && strings.Contains(strings.SplitN(cal.Pkg.Pkg.Path(), "/", 2)[0], ".") && handsOverModuleCode(p, hc):
+							// a third-party library that is handed code of the module (the MVS solver gets the resolver-backed
+							// requirement graph): it calls back, and whatever the callbacks read can fail with not-exist
+							sites = append(sites, "library call "+core.CalleeKey(cal)+" (calls back into the module) in "+fname(h))
+						case hc.Common().IsInvoke() && core.InModule(h):
+							// an interface of the module (the resolver behind the MVS library's requirement graph): opaque, may read anything
+							if nm, ok := hc.Common().Value.Type().(*types.Named); ok && nm.Obj().Pkg() != nil && strings.HasPrefix(nm.Obj().Pkg().Path(), core.ModulePath) {
+								sites = append(sites, "invoke "+nm.Obj().Name()+"."+hc.Common().Method.Name()+" in "+fname(h))
+							}
+						}
+					}
+				}
+				sort.Strings(sites)
+				if len(sites) <= 1 {
+					r.OK(rule, construct, p.InstrPos(c.(ssa.Instruction)), "the tested error comes from %s, which accesses one file (%s)", fname(g), strings.Join(sites, ", "))
+				} else {
+					show := sites
+					if len(show) > 4 {
+						show = append(append([]string{}, show[:4]...), fmt.Sprintf("… %d more", len(sites)-4))
+					}
+					r.Bad(rule, construct, p.InstrPos(c.(ssa.Instruction)), "the fallback to the other configuration file name is decided by a not-exist test on the error of %s, which can fail with a (wrapped) not-exist error from %d places (%s): a download-cache entry without a configuration file reads as 'this configuration file is missing' and the project is silently configured from a left-over file of the other name", fname(g), len(sites), strings.Join(show, "; "))
+				}
+			}
+		}
+	}
+	r.Floor(rule, n, 3, "not-exist tests in functions that choose between dawn.toml and .dawnconfig")
+}
+
 // checkClosestTaggedAncestor implements R11.8 on the range-over-func lowering of go/ssa: a `for x := range seq` body is a
 // synthetic yield closure that returns true to go on and false to stop; a break that leaves more than the innermost
 // range stores a positive code into the enclosing jump cell before returning false.
@@ -616,6 +754,7 @@ func runC10(p *core.Prog, r *core.Result) {
 		"R10.6 the version-resolution packages never order strings with < <= > >= (versions and major suffixes are ordered by semver.Compare only)",
 		"R10.8 the versions a repository lists carry each tag's own version string, verbatim: between the tag name and Version.Version there is nothing but taking the last path element (no canonicalisation or other many-to-one rewriting) - tag names are unique, so at most one listed entry per tag object equals a requested path@version and the revision a requirement resolves to does not depend on the order of the remote's ref listing",
 		"R10.9 the clone behind a repository object is used by one goroutine at a time: every operation on the go-git repository held by a vcs repository type, on its work tree (Checkout) and every copy of its work-tree directory happens while a mutex of that object is held (the constructor excepted: the object is not shared yet) - the resolver shares one repository object between all fetches of a project and the MVS library loads requirements in parallel, so without the lock 'check out A, check out B, copy, copy' stores B's tree in the download cache under A's name",
+		"R10.10 which configuration file a project (the root or a requirement) is read from does not depend on the download cache: where a fallback from dawn.toml to .dawnconfig is decided by a 'does not exist' test on an error, that error comes from accessing that one file only (an os call, or a module function whose static closure contains a single file access) - not from a whole load that also computes the build list, whose wrapped not-exist errors (a cache entry without a configuration file) would read as 'dawn.toml is missing' and silently configure the project from a left-over .dawnconfig",
 		"R10.5 a fetched project's summary lists every requirement of its configuration, one to one, in sorted name order",
 	}
 	r.NotDecided = []string{"that the result is the minimal-version-selection solution for all graphs (the algorithm lives in github.com/pgavlin/mvs, outside the repository; behavioural)", "network/VCS behaviour behind the resolver"}
@@ -1106,6 +1245,9 @@ func runC10(p *core.Prog, r *core.Result) {
 			r.Check(ok, "R10.5", "internal/mvs.(*Resolver).resolveProject#all-requirements", p.InstrPos(at), "the summary's requirement list has one entry per requirement of the fetched configuration, in sorted name order", "the summary's requirement list is not built one-to-one from the configuration's requirements in sorted order: requirement edges can be merged or dropped, and projects reachable only through them vanish from the build list")
 		}
 	}
+
+	// ---- R10.10 the fallback between configuration file names is decided by that file alone
+	checkConfigFallback(p, r, "R10.10")
 
 	// ---- R10.9 the shared clone is used under the repository's lock
 	checkSharedCloneLocked(p, r, "R10.9")
